@@ -135,6 +135,9 @@ fn knobs(seed: u64, lane: Lane) -> Knobs {
 
 fn random_case(seed: u64, lane: Lane, trace: bool) -> CaseOut {
     let mut h = Honest::random(seed, &knobs(seed, lane));
+    // (a Retry token that expires while losses keep the handshake from finishing ends the attempt
+    // with INVALID_TOKEN by design: not a progress failure)
+    h.retry_lifetime_ms = 10_000_000;
     let mut r = Rng::new(seed ^ 0xC02);
     // Keep the fault window short relative to the probe timeout: PTO back-off doubles per
     // unanswered probe (up to 2^16), so a long blackout at a tiny RTT legitimately postpones
@@ -192,6 +195,7 @@ fn enum_case(idx: u64, k_bits: u32, lane: Lane, trace: bool) -> CaseOut {
     kn.max_streams = 3;
     kn.random_cfg = cfg >= 3;
     let mut h = Honest::random(1000 + cfg, &kn);
+    h.retry_lifetime_ms = 10_000_000;
     h.policy = [IncomingPolicy::Accept, IncomingPolicy::RetryFirst, IncomingPolicy::HoldNs(3_000_000)][(cfg % 3) as usize];
     let mut set = BTreeSet::new();
     for b in 0..k_bits {
